@@ -204,7 +204,7 @@ pub fn required_probes(property: &str) -> Vec<&'static str> {
         "C11" => vec!["c11_canary_step_checked", "c11_stage_startup", "c11_stage_password", "c11_stage_post_auth", "c11_stage_in_txn", "c11_stage_in_copy", "c11_stage_admin", "c11_stage_after_parse", "relay_compared_steps", "c11_payload_len_negative", "c11_payload_unknown_type", "c11_payload_b_param_len_beyond", "c11_payload_random_bytes"],
         "C13" => vec!["c13_command", "c13_not_a_command", "c13_non_command_forwarded", "c13_show_compared", "c13_out_of_range_refused", "c13_number_beyond_64_bits", "c13_grey_spelling"],
         "C06" => vec!["c06_statement_checked", "c06_decided_among_several_shards", "c06_set_sharding_key", "c06_set_shard", "c06_set_shard_out_of_range", "c06_path_sticky", "c06_path_comment_key", "c06_path_comment_shard", "c06_path_auto_literal", "c06_path_bind_text", "c06_path_bind_binary8", "c06_path_bind_binary4", "c06_path_bind_binary2"],
-        "C05" => vec!["c05_statement_checked", "c05_decided_plain_read_replica", "c05_decided_write_primary", "c05_decided_ddl_primary", "c05_decided_utility_primary", "c05_decided_dm_cte_primary", "c05_decided_lock_primary", "c05_decided_select_into_primary", "c05_decided_txn_start_primary", "c05_decided_multi_with_write_primary", "c05_set_server_role_primary", "c05_set_server_role_replica", "c05_set_server_role_auto"],
+        "C05" => vec!["c05_statement_checked", "c05_decided_plain_read_replica", "c05_decided_write_primary", "c05_decided_ddl_primary", "c05_decided_utility_primary", "c05_decided_dm_cte_primary", "c05_decided_lock_primary", "c05_decided_select_into_primary", "c05_decided_txn_start_primary", "c05_decided_multi_with_write_primary", "c05_set_server_role_primary", "c05_set_server_role_replica", "c05_set_server_role_auto", "c05_statement_after_reload"],
         "C19" => vec!["c19_listed_statement_checked", "c19_intercept_checked", "c19_control_plugins_disabled", "c19_where_simple", "c19_where_multi_statement", "c19_where_extended", "c19_where_batch_first", "c19_where_batch_last", "c19_where_in_transaction_simple", "c19_where_in_transaction_extended", "c19_where_named_parse_then_later_bind", "c19_spelling_upper", "c19_spelling_quoted", "c19_spelling_qualified", "c19_statement_after_enabling_reload"],
         "C20" => vec!["relay_compared_steps", "c20_latency_checked", "c20_mirror_connection", "c20_mirror_unit_checked"],
         "C15" => vec!["c15_config_rejected", "c15_config_accepted", "c15_probe_checked", "c15_default_shard_probe_checked", "c15_admin_step_checked", "c15_accepted_valid", "c15_rejected_two_primaries", "c15_rejected_duplicate_server", "c15_rejected_default_shard_beyond_range", "c15_rejected_shard_id_not_numeric"],
